@@ -263,6 +263,12 @@ def sub_span(ctx):
     pcs = [x for x in walk_func(tg) if isinstance(x, ast.Call) and dotted(x.func) == "ast.PythonCode"]
     ctx.require(pcs, "Tag._parse_attributes does not parse attribute expressions")
     kwt = " ".join(src(k.value) for k in pcs[0].keywords) + " ".join(k.arg or "" for k in pcs[0].keywords)
+    # PythonCode counts the line terminators it strips in front of the code: an expression that starts on a later line than its
+    # `${` must reach it with them
+    for pc_ in pcs:
+        a0 = resolve_deep(tg, pc_.args[0], 3) if pc_.args else None
+        lstripped = a0 is not None and any(isinstance(x_, ast.Call) and isinstance(x_.func, ast.Attribute) and x_.func.attr in ("strip", "lstrip") for x_ in ast.walk(a0))
+        ctx.check(not lstripped, "parse:parsetree.Tag#attribute-leading-lines", db.where(pc_), "the attribute expression is stripped on the left (`%s`) before PythonCode sees it: the lines between `${` and the code are not counted and an error in it is reported too early" % (src(a0) if a0 is not None else ""), "expression handed on with its leading line terminators")
     # can a tag span lines?  the tag-start regex allows \s (incl. newline) between attributes
     from .c01 import lexer_match_sites
     from ..engine import rx
